@@ -290,4 +290,115 @@ Proof.
   - destruct (negb (Z.land b0 1 =? pn)); [reflexivity|].
     unfold recv_check. destruct (negb (Z.land b0 16 =? 0)); reflexivity.
 Qed.
+
+(* ---- HEAD b65ae89: the shared budget n_extra / max_extra_blocks ---- *)
+Lemma bridge_extra n m :
+  gen_max_extra_blocks = MAX_EXTRA_BLOCKS /\ gen_extra_init = 0 /\
+  gen_send_extra_incr n = n + 1 /\ gen_recv_extra_incr n = n + 1 /\ gen_chain_extra_incr n = n + 1 /\
+  gen_send_extra_over n m = over (Some m) n /\ gen_recv_extra_over n m = over (Some m) n /\
+  gen_chain_extra_over n m = over (Some m) n /\ gen_chain_errno_over = E_PROTOCOL.
+Proof. repeat split. Qed.
+
+Definition k_after_send_x (pn off : Z) (d : bytes) (n m : Z) : xpcd :=
+  if gen_send_bad_bn d pn then {| xp := mkp pn (tagerr gen_send_errno_proto); nx := n |}
+  else if gen_more cmd off (miu k) then {| xp := k_after_send pn off d; nx := n |}
+  else
+    if gen_is_inf d then
+      let pn' := gen_toggle_inf pn in
+      if gen_chaining d then                      (* the chaining `while` is entered *)
+        let n' := gen_chain_extra_incr n in
+        {| xp := mkp pn' (if gen_chain_extra_over n' m then tagerr gen_chain_errno_over
+                          else PRecv 1 (gen_rack pn') (gen_response_first d)); nx := n' |}
+      else {| xp := mkp pn' (PDone (Ok (gen_response_first d))); nx := n |}
+    else {| xp := mkp pn (tagerr gen_send_errno_proto); nx := n |}.
+
+Definition k_absorb_send_x (pn off i n m : Z) (a : aresult) : xpcd :=
+  match a with
+  | ARx d =>
+      if gen_send_empty d then {| xp := k_absorb_send pn off i a; nx := n |}
+      else if gen_send_is_wtx d then
+        if gen_send_wtx_short d then {| xp := mkp pn (tagerr gen_send_errno_proto); nx := n |}
+        else let n' := gen_send_extra_incr n in
+             {| xp := mkp pn (if gen_send_extra_over n' m then tagerr gen_send_errno_proto else PSend off i d); nx := n' |}
+      else if gen_retransmit d pn i (n_nak k) then {| xp := k_absorb_send pn off i a; nx := n |}
+      else k_after_send_x pn off d n m
+  | _ => {| xp := k_absorb_send pn off i a; nx := n |}
+  end.
+
+Definition k_absorb_recv_x (pn i : Z) (rsp : bytes) (n m : Z) (a : aresult) : xpcd :=
+  match a with
+  | ARx d =>
+      if gen_recv_empty d then {| xp := k_absorb_recv pn i rsp a; nx := n |}
+      else if gen_recv_is_wtx d then
+        if gen_recv_wtx_short d then {| xp := mkp pn (tagerr gen_recv_errno_proto); nx := n |}
+        else let n' := gen_recv_extra_incr n in
+             {| xp := mkp pn (if gen_recv_extra_over n' m then tagerr gen_recv_errno_proto else PRecv i d rsp); nx := n' |}
+      else if gen_recv_bad_bn d pn then {| xp := mkp pn (tagerr gen_recv_errno_proto); nx := n |}
+      else let pn' := gen_toggle_recv pn in let r := gen_response_more rsp d in
+           if gen_chaining d then                  (* the chaining `while` is continued *)
+             let n' := gen_chain_extra_incr n in
+             {| xp := mkp pn' (if gen_chain_extra_over n' m then tagerr gen_chain_errno_over else PRecv 1 (gen_rack pn') r); nx := n' |}
+           else {| xp := mkp pn' (PDone (Ok r)); nx := n |}
+  | _ => {| xp := k_absorb_recv pn i rsp a; nx := n |}
+  end.
+
+Lemma toggle_neqb pn : (toggle pn =? pn) = false.
+Proof. unfold toggle. apply Z.eqb_neq. intro H. pose proof (Z.mod_pos_bound (pn + 1) 2 ltac:(lia)). lia. Qed.
+
+Theorem bridge_absorb_send_x pn off i d0 n m a :
+  pcd_absorb_x k (Some m) cmd {| xp := mkp pn (PSend off i d0); nx := n |} a = k_absorb_send_x pn off i n m a.
+Proof.
+  unfold pcd_absorb_x. cbn [xp nx]. rewrite bridge_absorb_send.
+  destruct a as [d | | |].
+  2-4: unfold k_absorb_send_x, k_absorb_send;
+       destruct (gen_send_retry_timeout i (n_nak k)), (gen_send_retry_txerr i (n_nak k)); reflexivity.
+  destruct d as [|b0 inf].
+  { unfold k_absorb_send_x, k_absorb_send, chain_event, is_recv, wtx_event. cbn [ph mkp pni andb].
+    change (gen_send_empty []) with true. cbv iota.
+    destruct (gen_send_retry_txerr i (n_nak k)); cbn [ph mkp pni tagerr andb]; reflexivity. }
+  unfold k_absorb_send_x, k_absorb_send.
+  destruct (bridge_tests b0 inf pn i (n_nak k)) as (T1 & _ & T3 & T4 & _ & T6 & T7 & T8 & T9 & _).
+  rewrite T9, T1, T3. unfold wtx_event. cbn [ph mkp]. rewrite Hf1.
+  destruct (is_wtx b0) eqn:Ew.
+  - destruct inf as [|b1 inf]; [reflexivity|]. cbn [andb].
+    destruct (bridge_wtx_short b0 b1 inf) as (W1 & _). rewrite W1. unfold gen_send_extra_over, gen_send_extra_incr, gen_recv_extra_over, gen_recv_extra_incr, gen_chain_extra_over, gen_chain_extra_incr, over; destruct (Z.add n 1 >? m); reflexivity.
+  - assert (Hwe : match inf with [] => false | _ :: _ => false && true end = false) by (destruct inf; reflexivity).
+    rewrite Hwe.
+    destruct (is_rack_other pn b0 && (i <=? n_nak k + 1)); [reflexivity|].
+    unfold k_after_send_x, k_after_send. rewrite T4, T6, T7, T8.
+    destruct (negb (Z.land b0 1 =? pn)); [reflexivity|].
+    change (gen_more cmd off (miu k)) with (more_at k cmd off).
+    destruct (more_at k cmd off); [destruct (Z.land b0 254 =? 162); reflexivity|].
+    destruct (Z.land b0 238 =? 2); [|reflexivity].
+    destruct (negb (Z.land b0 16 =? 0)); [|reflexivity].
+    unfold chain_event, is_recv. cbn [ph mkp pni andb]. change (gen_toggle_inf pn) with (toggle pn).
+    rewrite toggle_neqb. unfold gen_send_extra_over, gen_send_extra_incr, gen_recv_extra_over, gen_recv_extra_incr, gen_chain_extra_over, gen_chain_extra_incr, over; destruct (Z.add n 1 >? m); reflexivity.
+Qed.
+
+Theorem bridge_absorb_recv_x pn i d0 rsp n m a :
+  pcd_absorb_x k (Some m) cmd {| xp := mkp pn (PRecv i d0 rsp); nx := n |} a = k_absorb_recv_x pn i rsp n m a.
+Proof.
+  unfold pcd_absorb_x. cbn [xp nx]. rewrite bridge_absorb_recv.
+  destruct a as [d | | |].
+  2-4: unfold k_absorb_recv_x, k_absorb_recv, pcd_absorb_x, chain_event, is_recv, wtx_event;
+       destruct (gen_recv_retry_timeout i (n_ack k)), (gen_recv_retry_txerr i (n_ack k)); cbn [ph mkp pni tagerr andb];
+       rewrite ?Z.eqb_refl; reflexivity.
+  destruct d as [|b0 inf].
+  - unfold k_absorb_recv_x, k_absorb_recv, chain_event, is_recv, wtx_event. cbn [ph mkp pni andb].
+    change (gen_recv_empty []) with true. cbv iota.
+    destruct (gen_recv_retry_txerr i (n_ack k)); cbn [ph mkp pni tagerr andb]; rewrite ?Z.eqb_refl; reflexivity.
+  - unfold k_absorb_recv_x, k_absorb_recv.
+    destruct (bridge_tests b0 inf pn i (n_ack k)) as (_ & T2 & _ & _ & T5 & _ & _ & T8 & _ & T10 & _).
+    rewrite T10, T2, T5, T8. unfold wtx_event. cbn [ph mkp]. rewrite Hf2.
+    destruct (is_wtx b0) eqn:Ew.
+    + destruct inf as [|b1 inf]; [reflexivity|]. cbn [andb].
+      destruct (bridge_wtx_short b0 b1 inf) as (_ & W2 & _). rewrite W2.
+      unfold gen_send_extra_over, gen_send_extra_incr, gen_recv_extra_over, gen_recv_extra_incr, gen_chain_extra_over, gen_chain_extra_incr, over; destruct (Z.add n 1 >? m); reflexivity.
+    + assert (Hwe : match inf with [] => false | _ :: _ => false && true end = false) by (destruct inf; reflexivity).
+      rewrite Hwe.
+      destruct (negb (Z.land b0 1 =? pn)); [reflexivity|].
+      destruct (negb (Z.land b0 16 =? 0)); [|reflexivity].
+      unfold chain_event, is_recv. cbn [ph mkp pni andb]. change (gen_toggle_recv pn) with (toggle pn).
+      rewrite toggle_neqb. unfold gen_send_extra_over, gen_send_extra_incr, gen_recv_extra_over, gen_recv_extra_incr, gen_chain_extra_over, gen_chain_extra_incr, over; destruct (Z.add n 1 >? m); reflexivity.
+Qed.
 End Skeleton.
